@@ -1364,7 +1364,12 @@ class Index(IndexBase):
         from static_frame import IndexHierarchyGO
 
         cls = IndexHierarchy if self.STATIC else IndexHierarchyGO
-        return cls.from_tree({level: self.values}, name=self._name)
+        # the labels of this index become the inner level: keep the index class (as with IndexDate)
+        levels = cls._LEVEL_CONSTRUCTOR.from_tree(
+                {level: self.values},
+                index_constructors=(cls._INDEX_CONSTRUCTOR, self.__class__),
+                )
+        return cls(levels, name=self._name)
 
 
     def to_pandas(self) -> 'pandas.Index':
